@@ -581,6 +581,12 @@ pub fn extract(src: &str) -> Result<Extracted, String> {
     role.insert(start_type.clone(), "START");
     role.insert(terminal_enum.clone(), "TERMINALS");
     role.insert(qeof, "EOF");
+    // the type parameter of parse (uniquified when a user type is called `S`)
+    if t[pf + 2].is('<') {
+        if let Some(tp) = t[pf + 3].ident() {
+            role.insert(tp.to_string(), "SRC");
+        }
+    }
     let mut fp = String::new();
     for j in pf..pend {
         let piece = match &t[j] {
